@@ -50,19 +50,29 @@ pub(crate) fn add_years(days: i32, years: u32) -> Result<i32, AstrolabeError> {
 }
 
 pub(crate) fn add_months(days: i32, months: u32) -> Result<i32, AstrolabeError> {
-    let (year, month, day) = days_to_date(days);
-    let mut total_months = year * 12 + month as i32 + months as i32 - 1;
-    // Skip year 0
-    if total_months <= 11 {
-        total_months += 12;
-    }
+    shift_months(days, months as i64)
+}
 
-    let target_year = total_months / 12;
-    let target_month = if (month + months) % 12 == 0 {
-        12
+/// Moves the date by the given number of months (negative to subtract), keeping the day of month where possible
+fn shift_months(days: i32, months: i64) -> Result<i32, AstrolabeError> {
+    let (year, month, day) = days_to_date(days);
+    // Count months from January of the year -1 (astronomical year 0), so that year 0 is skipped
+    let astro_year = if year < 0 { year + 1 } else { year } as i64;
+    let total_months = astro_year * 12 + month as i64 - 1 + months;
+
+    let target_astro_year = total_months.div_euclid(12);
+    let target_year = if target_astro_year <= 0 {
+        target_astro_year - 1
     } else {
-        (month + months) % 12
+        target_astro_year
     };
+    let target_year = i32::try_from(target_year).map_err(|_| {
+        create_custom_oor(format!(
+            "Instance would result into an overflow if {} months were added.",
+            months,
+        ))
+    })?;
+    let target_month = total_months.rem_euclid(12) as u32 + 1;
     let target_day = match day {
         day if day < 29 => day,
         _ => {
@@ -108,35 +118,7 @@ pub(crate) fn sub_years(days: i32, years: u32) -> Result<i32, AstrolabeError> {
 }
 
 pub(crate) fn sub_months(days: i32, months: u32) -> Result<i32, AstrolabeError> {
-    let (year, month, day) = days_to_date(days);
-    let mut total_months = year * 12 + month as i32 - months as i32 - 1;
-    // Skip year 0
-    if total_months <= 11 {
-        if year > 0 {
-            total_months -= 24;
-        } else {
-            total_months -= 12;
-        }
-    }
-
-    let target_year = total_months / 12;
-    let target_month = if (month - months) % 12 == 0 {
-        12
-    } else {
-        (month - months) % 12
-    };
-    let target_day = match day {
-        day if day < 29 => day,
-        _ => {
-            let (_, mdays) = year_month_to_doy(target_year, target_month).unwrap();
-            if day > mdays {
-                mdays
-            } else {
-                day
-            }
-        }
-    };
-    date_to_days(target_year, target_month, target_day)
+    shift_months(days, -(months as i64))
 }
 
 pub(crate) fn sub_days(old_days: i32, days: u32) -> Result<i32, AstrolabeError> {
